@@ -46,6 +46,9 @@ def activate() -> str:
     # Hooks guard (no hooks exist at present; the name is reserved so that a
     # future hook is enabled in every check without further plumbing).
     os.environ.setdefault("QUANTUMLIB_CIRQ_VERIF", "1")
+    # library warnings (complex64 normalisation, deprecations) are not verdicts; keep the output readable
+    import warnings
+    warnings.simplefilter("ignore")
     return root
 
 
